@@ -159,6 +159,35 @@ func genInputs(r *vk.Rand, key, master string, n int) []hin {
 			add("extreme-option/history/"+opt, session(key, req(1, "history", map[string]interface{}{"key": key, "channel": key + "/canary/?" + opt + "=" + v})))
 		}
 	}
+	// option syntax: every string over {a,1,=,&} up to length 5 after the '?', on subscribe/publish/will/JSON channel
+	alpha := "a1=&"
+	var optStrs []string
+	var gen func(cur string)
+	gen = func(cur string) {
+		if len(cur) > 0 {
+			optStrs = append(optStrs, cur)
+		}
+		if len(cur) == 5 {
+			return
+		}
+		for i := 0; i < len(alpha); i++ {
+			gen(cur + string(alpha[i]))
+		}
+	}
+	gen("")
+	optStrs = append(optStrs, "ttl=1&x", "last=5&until", "ttl=1&&last=2", "a=b&c", "me=0&", "&ttl=1", "ttl==1", "?ttl=1", "ttl=1?last=2")
+	for i, o := range optStrs {
+		switch i % 4 {
+		case 0:
+			add("extreme-option-syntax/subscribe", session(key, mqttref.Subscribe(1, key+"/canary/?"+o)))
+		case 1:
+			add("extreme-option-syntax/publish", session(key, mqttref.Publish(1, key+"/a/b/?"+o, []byte("x"), 1, false)))
+		case 2:
+			add("extreme-option-syntax/will", append([]byte{'C'}, mqttref.Connect("w", "", &mqttref.Will{Topic: key + "/a/will/?" + o, Payload: []byte("bye")})...))
+		case 3:
+			add("extreme-option-syntax/json", session(key, req(1, "history", map[string]interface{}{"key": key, "channel": key + "/canary/?" + o}), req(2, "link", map[string]interface{}{"name": "l1", "key": key, "channel": "a/b/?" + o, "subscribe": true})))
+		}
+	}
 	var many []string
 	for i := 0; i < 1500; i++ {
 		many = append(many, fmt.Sprintf("%s/m/%d/", key, i))
@@ -186,7 +215,7 @@ func genInputs(r *vk.Rand, key, master string, n int) []hin {
 		add("oversize-remaining-length", append([]byte{'C'}, hdr...))
 	}
 	// (1) raw bytes
-	for len(out) < n*6/10 {
+	for k := 0; k < n*6/10; k++ {
 		switch r.Intn(5) {
 		case 0:
 			add("random-bytes", append([]byte{'C'}, r.Bytes(r.Range(1, 300))...))
@@ -240,7 +269,7 @@ func genInputs(r *vk.Rand, key, master string, n int) []hin {
 	_ = canaryCh
 	// frames addressed to the live canary subscriber, with normal and over-long bodies, and odd ids
 	add("cluster/frame-to-live-subscriber", nil) // placeholder replaced by the caller (needs the contract)
-	for len(out) < n {
+	for q := 0; q < n*4/10; q++ {
 		k := kinds[r.Intn(3)]
 		switch r.Intn(5) {
 		case 0:
@@ -279,7 +308,7 @@ func TestC09(t *testing.T) {
 	rec := vk.New("C09", "hostile")
 	defer rec.Finish(t)
 	rec.Rule("case = one hostile input fed to a real broker running in a child process under a 6 GiB address-space ceiling, with the input index logged before it: (1) client-port byte streams - random, valid sessions truncated at random offsets, bit/byte mutations, inflated inner and remaining-length fields, short bodies for every packet type; " +
-		"(2) well-formed requests with extreme parameters - last/ttl/from/until/me in {0,1,2^31,10^8,10^9,2^63-1,overflow,non-numeric}, 1500-tuple SUBSCRIBE, 64 KiB topics, payloads at the encode-buffer edge (direct, via link, retained), huge/odd JSON for every emitter/ request; (3) cluster side - random and mutated states/frames, valid snappy envelopes with hostile length prefixes, frames to a live local subscriber; " +
+		"(2) well-formed requests with extreme parameters - last/ttl/from/until/me in {0,1,2^31,10^8,10^9,2^63-1,overflow,non-numeric}, every option string over {a,1,=,&} up to length 5 on subscribe/publish/will/JSON channels, 1500-tuple SUBSCRIBE, 64 KiB topics, payloads at the encode-buffer edge (direct, via link, retained), huge/odd JSON for every emitter/ request; (3) cluster side - random and mutated states/frames, valid snappy envelopes with hostile length prefixes, frames to a live local subscriber; " +
 		"after every input a canary client does a publish/echo round trip; refuted by process death, hang, canary failure, a connection the broker never closes, or a panic escaping a gossip entry point; non-trivial = every input; distinct = hash of the input bytes")
 	lic := brokerlab.Opts{}
 	pb, err := brokerlab.NewBroker(lic)
